@@ -8,6 +8,7 @@ import (
 	"net"
 	"os"
 	"os/exec"
+	"strings"
 	"sync"
 	"sync/atomic"
 	"syscall"
@@ -18,6 +19,7 @@ import (
 	"github.com/andydunstall/piko/server/config"
 	"verifharness/internal/e4"
 	"verifharness/internal/evid"
+	"verifharness/internal/gw"
 )
 
 // C18: losing a node. Three nodes: two in-process survivors and one `piko
@@ -31,6 +33,10 @@ type c18Case struct {
 	LostIsSeed bool   `json:"lost_node_is_join_seed"`
 	Phase      string `json:"phase"` // idle | upstreams | in-flight | double-signal
 	Mode       string `json:"mode"`  // graceful | kill
+	// Reset: the listeners' connections to the lost node end with a TCP reset
+	// (what a crashed host or a load balancer with a dead target produces)
+	// instead of an orderly close
+	Reset bool `json:"connections_reset,omitempty"`
 }
 
 func freePorts(n int) []string {
@@ -58,7 +64,26 @@ type procNode struct {
 	exited                        chan struct{}
 }
 
+// startProc starts the subprocess node; the free ports are picked before the
+// process binds them, so a bind can lose a race with another socket: retried
+// with fresh ports.
 func startProc(id string, join []string, grace time.Duration) *procNode {
+	var last string
+	for attempt := 0; attempt < 6; attempt++ {
+		n, out := tryStartProc(id, join, grace)
+		if n != nil {
+			return n
+		}
+		last = out
+		if !strings.Contains(out, "address already in use") {
+			break
+		}
+	}
+	evid.Fatal("piko server subprocess did not become ready: %s", last)
+	return nil
+}
+
+func tryStartProc(id string, join []string, grace time.Duration) (*procNode, string) {
 	bin := os.Getenv("VERIF_PIKO_BIN")
 	if bin == "" {
 		evid.Fatal("VERIF_PIKO_BIN not set (the check script builds the piko binary)")
@@ -84,8 +109,13 @@ func startProc(id string, join []string, grace time.Duration) *procNode {
 		evid.Fatal("start piko server: %v", err)
 	}
 	go func() { _ = n.cmd.Wait(); close(n.exited) }()
-	// wait for the admin port
+	// wait for the admin port (or for the process to give up)
 	ok := e4.WaitFor(20*time.Second, func() bool {
+		select {
+		case <-n.exited:
+			return true
+		default:
+		}
 		resp, err := e4.Client().Get("http://" + n.Admin + "/ready")
 		if err != nil {
 			return false
@@ -93,11 +123,16 @@ func startProc(id string, join []string, grace time.Duration) *procNode {
 		resp.Body.Close()
 		return resp.StatusCode == 200
 	})
+	select {
+	case <-n.exited:
+		ok = false
+	default:
+	}
 	if !ok {
 		n.kill()
-		evid.Fatal("piko server subprocess did not become ready: %s", n.out.String())
+		return nil, n.out.String()
 	}
-	return n
+	return n, ""
 }
 
 func (n *procNode) kill() {
@@ -116,6 +151,7 @@ type lb struct {
 	targets []string
 	mu      sync.Mutex
 	conns   atomic.Int64
+	reset   atomic.Bool
 }
 
 func newLB(targets []string) *lb {
@@ -146,7 +182,18 @@ func (l *lb) handle(c net.Conn) {
 		l.conns.Add(1)
 		done := make(chan struct{}, 2)
 		go func() { _, _ = io.Copy(u, c); u.Close(); done <- struct{}{} }()
-		go func() { _, _ = io.Copy(c, u); c.Close(); done <- struct{}{} }()
+		go func() {
+			_, _ = io.Copy(c, u)
+			if l.reset.Load() {
+				// the balancer tells the client about a lost target with a reset,
+				// not an orderly close
+				if tc, ok := c.(*net.TCPConn); ok {
+					_ = tc.SetLinger(0)
+				}
+			}
+			c.Close()
+			done <- struct{}{}
+		}()
 		<-done
 		<-done
 		return
@@ -212,6 +259,7 @@ func runC18(c c18Case) (sig, msg string) {
 	}
 	balancer := newLB([]string{lost.Upstream, survivors[0].UpstreamAddr(), survivors[1].UpstreamAddr()})
 	defer balancer.ln.Close()
+	balancer.reset.Store(c.Reset)
 	var lns []*e4.StampListener
 	defer func() {
 		for _, l := range lns {
@@ -371,6 +419,9 @@ func init() {
 						continue
 					}
 					cases = append(cases, c18Case{LostIsSeed: seed, Phase: ph, Mode: m})
+					if m == "kill" && ph != "idle" {
+						cases = append(cases, c18Case{LostIsSeed: seed, Phase: ph, Mode: m, Reset: true})
+					}
 				}
 			}
 		}
@@ -411,8 +462,19 @@ func init() {
 		}
 		close(ch)
 		wg.Wait()
+		// "announces its departure": the real Gossip.Leave for every subset of
+		// peers that died a moment ago (gossip-level, in memory)
+		lc, probs := gw.CheckLeaveAnnounced(8)
+		for i, p := range probs {
+			if i < 3 {
+				run.Violation("C18", "departure-not-announced", p, map[string]any{"engine": "E1-leave", "problem": p})
+			}
+		}
+		run.Set("leave_announcement_cases", lc)
+		distinctCases := evals + lc/8 // each unreachable-set is tried 8 times (random order inside Leave)
+		evals += lc
 		run.Set("evaluations", evals)
-		run.Set("distinct_nontrivial", evals)
+		run.Set("distinct_nontrivial", distinctCases)
 		run.Set("rule", "3-node cluster (two in-process survivors + one `piko server` subprocess built from the current tree) behind a TCP load balancer that attaches listeners to the node that will be lost; lost node {join seed, later joiner} x phase {idle, upstreams connected, 10 requests in flight, second signal mid-shutdown} x mode {SIGTERM, SIGKILL}; each case is distinct; both survivors are used as entry nodes")
 		run.Set("exhaustive", run.Thorough())
 		run.Assume("the kill is delivered at phase boundaries, not at every instruction; schedules are free-running; liveness claims poll up to 60s and a miss is re-run twice before it is reported")
